@@ -164,10 +164,16 @@ func (ex *zzC13Exec) sig() string {
 			parts = append(parts, s)
 		}
 	}
-	if seen[StateContractClosed.String()] {
-		// see finding C13-F2: whatever else happened, the node was
-		// restarted in this state
-		return "restart-in-" + StateContractClosed.String()
+	// States whose restart handling is itself the recorded finding (C13-F2,
+	// C13-F3): whatever else happened in this execution, the node was
+	// restarted in that state.
+	for _, root := range []string{
+		StateContractClosed.String(),
+		StateDefault.String() + "(commit-set-logged,channel-open)",
+	} {
+		if seen[root] {
+			return "restart-in-" + root
+		}
 	}
 	sort.Strings(parts)
 	return "restart-in-" + strings.Join(parts, "+")
